@@ -5,7 +5,7 @@ complete in a flow is not re-run when that flow reaches it again").
 Statements only, over the `Sched3Set` model (scheduler core + flows + `cylc set`), for all instance graphs and all
 states; proofs by reference to `Sched3SetFlow` / `Sched3SetSpawn`.
 -/
-import CylcModel.Sched3SetFlow
+import CylcModel.Sched3SetFlowRun2
 namespace CylcModel.C08S
 open CylcModel.Sched3Set
 
@@ -84,6 +84,28 @@ theorem no_rerun_in_flow (g : Graph) (fuel : Nat) (s : State) (name : String) (p
     (spawnTask g (fuel + 1) s name p F fw).2 = none :=
   spawnTask_no_rerun g fuel s name p F fw x0 t hmk ht st hprev hfin hcomp
 
+/-! ### flow numbers over whole runs -/
+
+/-- **run invariant** (every instance graph; every list of main loops, submit results, job messages, hold / stop /
+pause commands, `cylc set` commands with any `--flow` option, restarts): every flow number carried by a pooled proxy
+or by a transient object is in the `workflow_flows` table; the flows the flow manager knows are in the table; every
+number in the table is at most the flow counter or a flow the manager knows; flow 1 is in the table. -/
+theorem flow_invariant_all_runs (g : Graph) (ops : List Op) : ∀ s ∈ run g ops, FlowInv s :=
+  flowInv_run g ops
+
+/-- **fresh_flow at scheduler level** ("a new flow started by command always gets a number never used before in the
+workflow's history, including across restarts"): in every state of every run the number `--flow=new` gets
+(`FlowMgr.get_flow()` = `newFlow`) is carried by no pooled proxy and no transient object and is not in the
+`workflow_flows` table (which, by the invariant, holds every number that was ever carried). -/
+theorem new_flow_is_fresh (g : Graph) (ops : List Op) : ∀ s ∈ run g ops,
+    (newFlow s).2 ∉ s.flowsDb ∧ (∀ y ∈ s.pool, (newFlow s).2 ∉ y.flows) ∧ (∀ y ∈ s.ghosts, (newFlow s).2 ∉ y.flows) :=
+  fun s hs => newFlow_fresh s (flowInv_run g ops s hs)
+
+/-- the table only grows under `cli_to_flow_nums`, and the flows of the command are registered in it -/
+theorem command_flows_registered (s : State) (fl : FlowSpec) (h : FlowInv s) :
+    FlowInv (cliFlows s fl).1 ∧ ∀ a ∈ (cliFlows s fl).2, a ∈ (cliFlows s fl).1.flowsDb :=
+  flowInv_cliFlows s fl h
+
 /-! ### non-vacuity -/
 
 def stdOut : List OutDef :=
@@ -118,5 +140,10 @@ example : (spawnTask exG 3 exAfterSet "a" 1 [2] false).2.isNone = true ∧
     (spawnTask exG 3 exAfterSet "a" 1 [3] false).2.isSome = true := by decide
 
 example : (taskHistory exAfterSet "a" 1 [2]).2.1 = some Status.succeeded := by decide
+
+-- a run with a `cylc set --flow=new`, a stop and a restart: the next new flow number is 3, carried by nothing
+example : (run exG [.set [(1, "a")] ["succeeded"] .none .new false, .loop, .stop "REQUEST(NOW-NOW)", .loop, .restart]).getLast?.map
+    (fun s => ((newFlow s).2, s.flowsDb, s.pool.map (fun x => (x.name, x.flows)))) = some (3, [1, 2], [("b", [1, 2])]) := by
+  decide
 
 end CylcModel.C08S
